@@ -526,3 +526,95 @@ func normCodePred(w *World, p interface{}, fd *ast.FuncDecl, e ast.Expr) string 
 	}
 	return s
 }
+
+// IDX.1: an indexable sequence is indexed, bounds-checked and iterated over one
+// and the same storage (so index i, len-bounds and iteration agree on the unit:
+// elements, bytes, or runes).
+func ruleIDX1(c *Ctx) {
+	w := c.W
+	p := w.Root
+	for _, tname := range []string{"Array", "ImmutableArray", "Bytes", "String"} {
+		ig := w.methodDecl(tname, "IndexGet")
+		it := w.methodDecl(tname, "Iterate")
+		key := "index/" + tname
+		if ig == nil || it == nil {
+			c.fail(key, nil, tname+" lacks IndexGet or Iterate")
+			continue
+		}
+		recv := recvName(ig)
+		norm := func(e ast.Expr) string { return strings.TrimPrefix(w.Src(e), recv+".") }
+		// variables derived from the index argument
+		idxVars := map[types.Object]bool{}
+		if ig.Type.Params.NumFields() == 1 && len(ig.Type.Params.List[0].Names) == 1 {
+			idxVars[p.TypesInfo.Defs[ig.Type.Params.List[0].Names[0]]] = true
+		}
+		for pass := 0; pass < 3; pass++ {
+			ast.Inspect(ig.Body, func(n ast.Node) bool {
+				as, ok := n.(*ast.AssignStmt)
+				if !ok {
+					return true
+				}
+				uses := false
+				for _, r := range as.Rhs {
+					if containsNode(r, func(m ast.Node) bool {
+						id, ok := m.(*ast.Ident)
+						return ok && idxVars[p.TypesInfo.Uses[id]]
+					}) {
+						uses = true
+					}
+				}
+				if uses {
+					for _, l := range as.Lhs {
+						if id, ok := l.(*ast.Ident); ok {
+							if o := p.TypesInfo.Defs[id]; o != nil {
+								idxVars[o] = true
+							}
+						}
+					}
+				}
+				return true
+			})
+		}
+		usesIdx := func(e ast.Expr) bool {
+			return containsNode(e, func(m ast.Node) bool {
+				id, ok := m.(*ast.Ident)
+				return ok && idxVars[p.TypesInfo.Uses[id]]
+			})
+		}
+		indexed := map[string]bool{}
+		measured := map[string]bool{}
+		ast.Inspect(ig.Body, func(n ast.Node) bool {
+			switch x := n.(type) {
+			case *ast.IndexExpr:
+				if usesIdx(x.Index) {
+					indexed[norm(x.X)] = true
+				}
+			case *ast.BinaryExpr:
+				// idx >= len(S) / idx < len(S)
+				for _, side := range []ast.Expr{x.X, x.Y} {
+					if call, ok := ast.Unparen(side).(*ast.CallExpr); ok && IsBuiltinCall(p, call, "len") {
+						other := x.Y
+						if side == x.Y {
+							other = x.X
+						}
+						if usesIdx(other) {
+							measured[norm(call.Args[0])] = true
+						}
+					}
+				}
+			}
+			return true
+		})
+		// storage handed to the iterator
+		iter := map[string]bool{}
+		ast.Inspect(it.Body, func(n ast.Node) bool {
+			kv, ok := n.(*ast.KeyValueExpr)
+			if ok && w.Src(kv.Key) == "v" {
+				iter[strings.TrimPrefix(w.Src(kv.Value), recvName(it)+".")] = true
+			}
+			return true
+		})
+		good := len(indexed) == 1 && sameSet(indexed, measured) && sameSet(indexed, iter)
+		c.check(good, key, ig, "indexed, bounds-checked and iterated over the single storage "+setStr(indexed), fmt.Sprintf("%s.IndexGet reads %s, checks bounds against %s, and Iterate walks %s: index, bounds and iteration must agree on one storage (one unit: elements, bytes or runes)", tname, setStr(indexed), setStr(measured), setStr(iter)))
+	}
+}
